@@ -19,7 +19,7 @@ def gen_cases(tier, seed):
     cases = []
     n = 2500 if tier == "quick" else 30000
     for i in range(n):
-        hostile = (lambda r: hostile_text(r)) if i % 2 == 0 else None
+        hostile = (lambda r: hostile_text(r, escapes=0.12)) if i % 2 == 0 else None
         g = GT.G(rng, hostile=hostile)
         kind = i % 5
         if kind == 0:   # degenerate: a single component / properties without their component
@@ -59,7 +59,7 @@ def endpoint_cases(tier, seed):
     out = []
     n = 110 if tier == "quick" else 3000
     for i in range(n):
-        txt = (lambda r: hostile_text(r, structural=False).decode("utf-8", "replace")) if i % 2 == 0 else None
+        txt = (lambda r: hostile_text(r, structural=False, escapes=0.12).decode("utf-8", "replace")) if i % 2 == 0 else None
         g = GX.TG(rng, text=txt, annot_p=0.3)
         kind = i % 4
         if kind == 0:
@@ -191,7 +191,7 @@ def run(args):
     if model is None:
         V.broke("model:extraction", build.coq_log[-1500:])
     cov = std_coverage(po, len(cases), nontrivial,
-                       "T: random built statements (degenerate: single component / properties without their component; nesting depth <= 7; up to 9 fields; private links), half of them with texts/annotations/shared text over the hostile alphabet (quotes, backslash, CR, LF, control bytes, non-ASCII, invalid UTF-8), each under 3-4 of the 32 option vectors (thorough: every 10th under all 32). Non-trivial = distinct (statement, vector) with a combination or a nested statement.",
+                       "T: random built statements (degenerate: single component / properties without their component; nesting depth <= 7; up to 9 fields; private links), half of them with texts/annotations/shared text over the hostile alphabet (quotes, backslash, backslash in front of every JSON escape letter incl. incomplete \\u escapes, CR, LF, control bytes, non-ASCII, invalid UTF-8), each under 3-4 of the 32 option vectors (thorough: every 10th under all 32). Non-trivial = distinct (statement, vector) with a combination or a nested statement.",
                        [{"tree": texts[0], "flags": cases[0][1]}, {"tree": texts[len(texts) // 2], "flags": cases[len(texts) // 2][1]}],
                        {"distribution": dist, "tree_level": len(cases), "endpoint_level": {"statements": ep_n, "accepted": ep_acc, "correspondence_mismatches": ep_mism, "samples": ep_samples}, "correspondence_mismatches": mism, "outside_theorem_guard": nwf, "format_only_differences": fmt_only})
     return V.finish(cov, po["assumptions"])
